@@ -653,3 +653,30 @@ impl<K: Hash + Eq, V, FH: BuildHasher, RH: BuildHasher> Cache<K, V>
         self.protected.is_empty() && self.probationary.is_empty()
     }
 }
+
+// ---------------------------------------------------------------------------
+// Verification hooks (cargo feature `verif-hooks`, off by default).
+// ---------------------------------------------------------------------------
+#[cfg(feature = "verif-hooks")]
+impl<K: Hash + Eq, V, FH: BuildHasher, RH: BuildHasher> SegmentedCache<K, V, FH, RH> {
+    /// Read-only view of `(probationary, protected)`.
+    #[doc(hidden)]
+    #[allow(clippy::type_complexity)]
+    pub fn verif_segments(
+        &self,
+    ) -> (
+        &RawLRU<K, V, DefaultEvictCallback, RH>,
+        &RawLRU<K, V, DefaultEvictCallback, FH>,
+    ) {
+        (&self.probationary, &self.protected)
+    }
+
+    /// Forces a re-hash of the index of segment `which` (0 = probationary, 1 = protected).
+    #[doc(hidden)]
+    pub fn verif_rehash(&mut self, which: usize) {
+        match which {
+            0 => self.probationary.verif_rehash(),
+            _ => self.protected.verif_rehash(),
+        }
+    }
+}
